@@ -15,3 +15,5 @@ def run(out, sc, tier, seed):
     for be in ("c", "py"):
         shards += run_driver(sc, "alt", p, "alt", backend=be, nslices=10, shard_size=1500)
     validate(out, sc, "TraceUrl", "C13", shards, "alt")
+    from .common import run_witnesses
+    run_witnesses(out, sc, "C13")
